@@ -4,7 +4,7 @@ CONSTANTS
   MaxPhrase = 0
   MaxTmpl = 4
   MaxDeep = 5
-  Hosts = {"tmpl_raw", "tmpl_raw_deep"}
+  Hosts = {"tmpl_raw", "tmpl_raw_deep", "tmpl_trim"}
   EmitAll = TRUE
 INVARIANTS Emit
 CHECK_DEADLOCK FALSE
